@@ -394,8 +394,8 @@ class SArg(Sym):
         raise Unsupported("token identity")
 
     def sym_getitem(self, ex, k):
-        if isinstance(k, slice) and k.start == 1 and k.stop == -1 and k.step is None:
-            return ("without-slashes", self)
+        if isinstance(k, slice) and all(x is None or isinstance(x, int) for x in (k.start, k.stop, k.step)):
+            return ("slice-of", self, k.start, k.stop, k.step)
         raise Unsupported("token subscript")
 
     def __repr__(self):
@@ -442,7 +442,7 @@ class ParseSingle(Contract):
             return
         bang, js, rx = B("value_is_bang"), B("value_is_json_like"), B("value_is_regex")
         kind = ("exists" if val == {"$exists": True} else "json" if val == ("json-of", v) else
-                "regex" if isinstance(val, dict) and list(val) == ["$regex"] and val["$regex"] == ("without-slashes", v) else "cast" if val == ("cast-of", v) else "other")
+                "regex" if isinstance(val, dict) and list(val) == ["$regex"] and val["$regex"] == ("slice-of", v, 1, -1, None) else "cast" if val == ("cast-of", v) else "other")
         ex.oblige(self.oname("ensures:value_!_is_existence,_a_JSON_expression_is_parsed,_/re/_is_$regex_without_the_slashes,_anything_else_is_cast"),
                   z3.And(z3.BoolVal(kind != "other"), z3.BoolVal(kind == "exists") == bang, z3.BoolVal(kind == "json") == z3.And(z3.Not(bang), js),
                          z3.BoolVal(kind == "regex") == z3.And(z3.Not(bang), z3.Not(js), rx)), note=repr(val))
